@@ -39,13 +39,15 @@ INSTANCES = [
     ("summarize-window", "pipe.verbs", "summarize.check_summarize_col_expr", "FunctionTypeError", ["Ftype.WINDOW"], "window function in summarize"),
     ("slice-grouped", "pipe.verbs", "slice_head", "ValueError", ["partition_by"], "slice_head on a grouped table"),
     ("join-backend", "pipe.verbs", "join", "TypeError", ["backend"], "join of tables with different back ends"),
-    ("join-grouped", "pipe.verbs", "join", "ValueError", ["partition_by"], "join of a grouped table"),
+    ("join-grouped-left", "pipe.verbs", "join", "ValueError", ["left._cache.partition_by"], "join of a grouped left table"),
+    ("join-grouped-right", "pipe.verbs", "join", "ValueError", ["right._cache.partition_by"], "join with a grouped right table"),
     ("join-self", "pipe.verbs", "join", "ValueError", ["derived_from"], "join of tables with a common ancestor"),
     ("join-suffix", "pipe.verbs", "join", "ValueError", ["user_suffix", "left_names"], "user suffix producing a duplicate name"),
     ("join-nonbool", "pipe.verbs", "join", "DataTypeError", ["Bool"], "non-boolean join condition"),
     ("join-window", "pipe.verbs", "join", "FunctionTypeError", ["ftype", "ELEMENT_WISE", "iter_subtree"], "window function in join condition"),
     ("union-backend", "pipe.verbs", "_union_impl", "TypeError", ["backend"], "union of tables with different back ends"),
-    ("union-grouped", "pipe.verbs", "_union_impl", "ValueError", ["partition_by"], "union of a grouped table"),
+    ("union-grouped-left", "pipe.verbs", "_union_impl", "ValueError", ["left._cache.partition_by"], "union of a grouped left table"),
+    ("union-grouped-right", "pipe.verbs", "_union_impl", "ValueError", ["right._cache.partition_by"], "union with a grouped right table"),
     ("union-names", "pipe.verbs", "_union_impl", "ValueError", ["left_cols != right_cols"], "union of tables with different visible names"),
     ("ref-unknown", "pipe.verbs", "preprocess_arg._preprocess_expr", "ColumnNotFoundError", ["Col", "_uuid not in table._cache.cols"], "reference to a column that is not in scope"),
     ("series-bare", "pipe.verbs", "preprocess_arg._preprocess_expr", "TypeError", ["Series", "eval_aligned"], "series outside eval_aligned"),
